@@ -24,6 +24,7 @@ import (
 type seqConn struct {
 	serial  bool
 	replies [][]byte // reply to the n-th write
+	cut     int      // the second reply arrives in two reads, cut here (0 = whole)
 	nw      int
 	chunks  [][]byte
 	rdl     time.Time
@@ -31,7 +32,12 @@ type seqConn struct {
 
 func (c *seqConn) Write(p []byte) (int, error) {
 	if c.nw < len(c.replies) {
-		c.chunks = append(c.chunks, append([]byte(nil), c.replies[c.nw]...))
+		r := c.replies[c.nw]
+		if c.nw == 1 && c.cut > 0 && c.cut < len(r) {
+			c.chunks = append(c.chunks, append([]byte(nil), r[:c.cut]...), append([]byte(nil), r[c.cut:]...))
+		} else {
+			c.chunks = append(c.chunks, append([]byte(nil), r...))
+		}
 	}
 	c.nw++
 	return len(p), nil
@@ -69,6 +75,7 @@ type SeqCase struct {
 	Second  spec.Req `json:"second_request"`
 	Corrupt string   `json:"corruption"`
 	Frame   string   `json:"second_reply_hex"`
+	Cut     int      `json:"second_reply_cut,omitempty"`
 }
 
 func evalSeq(c SeqCase, res *ev.Result, lc *local) {
@@ -86,7 +93,7 @@ func evalSeq(c SeqCase, res *ev.Result, lc *local) {
 	good1 := dev.Handle(d1).Frame(true)
 	var frame []byte
 	fmt.Sscanf(c.Frame, "%x", &frame)
-	conn := &seqConn{serial: c.Kind != "rtu-net", replies: [][]byte{good1, frame}}
+	conn := &seqConn{serial: c.Kind != "rtu-net", replies: [][]byte{good1, frame}, cut: c.Cut}
 	vtime.ResetClock()
 	var do func(context.Context, packet.Request) (packet.Response, error)
 	switch c.Kind {
@@ -104,8 +111,9 @@ func evalSeq(c SeqCase, res *ev.Result, lc *local) {
 			Msg: fmt.Sprintf("%s client, second call after an accepted reply %x: second reply %s (%s): %s", c.Kind, good1, c.Frame, c.Corrupt, msg), Case: c})
 	}
 	r1, e1 := lib.SafeDo(do, context.Background(), q1)
-	if e1 != nil || lib.IsNil(r1) {
-		return // the first exchange is C07's business (known findings live there); nothing to say about the second then
+	var ex1 *packet.ErrorResponseRTU
+	if !(e1 == nil && !lib.IsNil(r1)) && !errors.As(e1, &ex1) {
+		return // the first exchange neither succeeded nor ended in the device's exception: C07's business (known findings live there)
 	}
 	r2, e2 := lib.SafeDo(do, context.Background(), q2)
 	lc.nontrivial++
@@ -130,7 +138,7 @@ func sequenceCheck(res *ev.Result, lc *local) {
 	}
 	dev := spec.NewDevice(spec.ImageHash, spec.BitImage)
 	for _, kind := range []string{"rtu-net", "serial", "serial-flusher"} {
-		for _, first := range reqs[:4] {
+		for _, first := range reqs {
 			for _, second := range reqs {
 				// the second request is the same as the first, or another one whose reply may have the same length
 				q2, err := lib.NewRequest(second, true)
@@ -149,6 +157,10 @@ func sequenceCheck(res *ev.Result, lc *local) {
 						return
 					}
 					evalSeq(SeqCase{Kind: kind, Req: first, Second: second, Corrupt: class, Frame: fmt.Sprintf("%x", f)}, res, lc)
+					if len(f) > 5 {
+						// the same, with the first look at the reply being exactly the 5 bytes an exception frame would have
+						evalSeq(SeqCase{Kind: kind, Req: first, Second: second, Corrupt: class, Frame: fmt.Sprintf("%x", f), Cut: 5}, res, lc)
+					}
 				}
 				for i := 0; i < len(good2)*8; i++ {
 					f := append([]byte(nil), good2...)
